@@ -114,6 +114,33 @@ def fd_integrals_form(fd):
     return Form(itgs)
 
 
+def fd_touch(fd):
+    """Read the public attributes of FormData (lazily computed ones included)."""
+    out = []
+    for name in (
+        "original_form",
+        "preprocessed_form",
+        "integral_data",
+        "rank",
+        "num_coefficients",
+        "reduced_coefficients",
+        "original_coefficient_positions",
+        "function_replace_map",
+        "coefficient_elements",
+        "unique_sub_elements",
+        "max_subdomain_ids",
+        "geometric_dimension",
+    ):
+        try:
+            v = getattr(fd, name)
+            out.append((name, type(v).__name__))
+        except BaseException as e:  # noqa: B036
+            out.append((name, "!" + type(e).__name__))
+    for itd in getattr(fd, "integral_data", []) or []:
+        str(itd)
+    return out
+
+
 def getitem(a, idx):
     return a[idx]
 
